@@ -73,7 +73,7 @@ def gen(rng):
 def plan(tier, seed):
     items = [{"kind": "lengths", "pos": pos, "exhaustive": "every ping payload length 0..125 x {idle, inside fragmented message, after another ping}"}
              for pos in ("idle", "inside", "after_ping")]
-    n = 20000 if tier == "quick" else 400000
+    n = 20000 if tier == "quick" else 1200000
     per = 500 if tier == "quick" else 4000
     for s in range(0, n, per):
         items.append({"kind": "rand", "start": s, "count": per})
@@ -283,7 +283,7 @@ def gen(rng):
 
 
 def plan(tier, seed):
-    return _plan0(tier, seed) + [{"kind": "reused", "count": 120 if tier == "quick" else 3000}]
+    return _plan0(tier, seed) + [{"kind": "reused", "count": 120 if tier == "quick" else 9000}]
 
 
 def expand(item, seed):
